@@ -10,6 +10,8 @@ E1_NOTE = ("Trusted base: plonky2's Poseidon2 permutation (shared by the referen
 E2_NOTE = ("Trusted base: the reference predicate/decoder written in the harness from the property statement; plonky2's Poseidon2 where hashes are compared. "
            "Generated-input search: agreement on the explored inputs is evidence, not proof, for all inputs.")
 
+POOL_NOTE = "Trusted base: the ~150-line pool model written from the statements; the pass-through child circuit stands in for the canonical private-batch circuit (the pool accepts any verifier of the right public-input length); the harness-owned virtual CLOCK_MONOTONIC (self-tested every run). Budget-window semantics as documented in pool.rs (fixed window, restarted by the first budget-stage push at least one window after its start). Histories are sampled, not enumerated."
+
 CHECKS = {
  # id: (engine, category, text, design_ref, level_note, technique)
  "C01": ("E1-leaf", "exploration",
@@ -79,6 +81,19 @@ CHECKS = {
  "C35": ("E2-native", "exploration",
          "Grammar-based documents rendered from a model (field order, unknown nested fields, escapes, u64 edges) with every cap probed at +-1 (state_root plain / \\u-escaped / multi-byte, node count, node length, total length spread over k nodes, index count, whitespace padding to 8 MiB +-1) plus mutations (truncation, byte edits, duplicate and wrong-typed fields): never panics, over-cap or oversized => Err, Ok(d) => validate() Ok and d equals the model.",
          "DESIGN.md §4 C35", E2_NOTE, "grammar-based generation with a model-derived oracle"),
+
+ "C19": ("E3-pool", "exploration",
+         "Model-based stateful testing: generated histories (pushes of pre-proved valid/dummy/tampered/wrong-length proofs, evictions, snapshots, removals, clock advances around the window boundary) against the real ProofPool and a model; per push the result, the returned key and the observed number of verifier calls must match the documented rule order, and a rejected push must leave the dumped pool state unchanged.",
+         "DESIGN.md §4 C19", POOL_NOTE, "stateful model-based testing (operation histories, delta-debugged counterexamples)"),
+ "C20": ("E3-pool", "exploration",
+         "After every operation of the same generated histories: dumped nullifier index == exactly the pooled nullifiers -> their bucket, no shared nullifier, no empty bucket, key of bucket == key of each proof, counts within limits, bucket_stats (counts, saturating volume, oldest age, last snapshot age) exactly equal to the model under frozen virtual time.",
+         "DESIGN.md §4 C20", POOL_NOTE, "invariant checking over generated operation histories"),
+ "C21": ("E3-pool", "exploration",
+         "Custody: a proof disappears only through a settlement set containing one of its nullifiers, age > cutoff, or removal of its bucket (returned in admission order); reported counts exact; snapshots return the oldest min(count, batch) in admission order, change only the snapshot mark and pass the public-batch preflight.",
+         "DESIGN.md §4 C21", POOL_NOTE, "stateful model-based testing"),
+ "C22": ("E3-pool", "exploration",
+         "Per model window the observed verifier calls never exceed the budget (failed verifications count), a push arriving with the window exhausted performs zero verifications, a push inside the budget is never refused for budget; histories straddle the window boundary (Advance in {W-1, W, W+1, 2W}).",
+         "DESIGN.md §4 C22", POOL_NOTE, "stateful model-based testing under a virtual clock"),
 }
 
 NOT_YET = "not claimed yet: check not implemented in this round (design in DESIGN.md §4); will be claimed once its check is built and validated"
@@ -131,6 +146,9 @@ def main():
             {"name": "E2-native", "path": "harness/src/props/parsers.rs, harness/src/props/encodings.rs, harness/src/props/config.rs, harness/src/props/jsonprops.rs, harness/src/util/alloc.rs",
              "serves_properties": [p for p in ["C24", "C25", "C26", "C27", "C28", "C29", "C35"] if p in CHECKS],
              "kind_free_text": "native API properties: deterministic generators (VERIF_SEED) + reference predicates/decoders, catch_unwind around every call, element-wise shrinking of failing vectors"},
+            {"name": "E3-pool", "path": "harness/src/props/poolprops.rs, harness/src/util/vclock.rs",
+             "serves_properties": [p for p in ["C19", "C20", "C21", "C22"] if p in CHECKS],
+             "kind_free_text": "pool state machine: Vec<Op> histories interpreted against ProofPool and a model, virtual clock by clock_gettime interposition, verifier-call counter and state dump through cfg-gated hooks, ddmin shrinking"},
             {"name": "E1-leaf", "path": "harness/src/engine/e1.rs, harness/src/engine/hints.rs, harness/src/leaf.rs, harness/src/props/leafdrv.rs",
              "serves_properties": [p for p in ["C01", "C02", "C03", "C04"] if p in CHECKS],
              "kind_free_text": "witness fuzzer: generator loop with replaced hint generators + native gate-constraint evaluation of the real leaf circuit, real prover/verifier as ground truth"},
